@@ -27,6 +27,7 @@ fn main() {
         Some("opscan") => history::opscan(&args[1..]),
         Some("leak") => history::leak(&args[1..]),
         Some("heapbfs") => heap::main(&args[1..]),
+        Some("heapwalk") => heap::walk(&args[1..]),
         Some("libgen") => history::libgen(&args[1..]),
         _ => {
             eprintln!("usage: pfv <run-jobs|...> ...");
